@@ -71,7 +71,7 @@ def run(ck, ctx):
     # ---------------------------------------------------------------- every event gets an energy
     def coverage():
         from ..facets.pred import Pred
-        from .c04 import coverage_rules
+        from .c04 import coverage_rules, sampler_angle_operand
         from .common import scatter_chain
         r = T.run_energy()
         z = None
@@ -81,7 +81,8 @@ def run(ck, ctx):
         if z is None:
             raise AnalysisError("sampled-fraction array not identified in Taus.tau_energy")
         coverage_rules(ck, "R07.7", I, Pred(I), z, T.betas, "beta_rad", "Taus.tau_energy",
-                       "tau energy (gamma >= 1 needs a sampled energy for every angle in the closed range)")
+                       "tau energy (gamma >= 1 needs a sampled energy for every angle in the closed range)",
+                       angle_operand=sampler_angle_operand)
     ck.guard(coverage, "R07.7")
 
     # ---------------------------------------------------------------- EAS.altDec
